@@ -5,7 +5,6 @@ package world
 import (
 	"context"
 	"crypto/sha256"
-	"encoding/json"
 	"fmt"
 	"reflect"
 	"runtime/debug"
@@ -22,7 +21,6 @@ import (
 	"k8s.io/apimachinery/pkg/types"
 	"k8s.io/client-go/tools/record"
 	"k8s.io/client-go/util/flowcontrol"
-	"sigs.k8s.io/controller-runtime/pkg/client"
 	"sigs.k8s.io/controller-runtime/pkg/reconcile"
 
 	v1 "github.com/DataDog/extendeddaemonset/api/v1alpha1"
@@ -43,7 +41,7 @@ type BackoffEntry struct {
 
 // State is one state of the world.
 type State struct {
-	Objs    []client.Object
+	Objs    []*Obj
 	Now     time.Duration // offset from Epoch (whole seconds)
 	Backoff map[string]BackoffEntry
 	Budget  int               // remaining deviations
@@ -73,7 +71,7 @@ func (s *State) Clone() *State {
 func (s *State) Pods() []*corev1.Pod {
 	var out []*corev1.Pod
 	for _, o := range s.Objs {
-		if p, ok := o.(*corev1.Pod); ok {
+		if p, ok := o.O.(*corev1.Pod); ok {
 			out = append(out, p)
 		}
 	}
@@ -83,7 +81,7 @@ func (s *State) Pods() []*corev1.Pod {
 func (s *State) Nodes() []*corev1.Node {
 	var out []*corev1.Node
 	for _, o := range s.Objs {
-		if p, ok := o.(*corev1.Node); ok {
+		if p, ok := o.O.(*corev1.Node); ok {
 			out = append(out, p)
 		}
 	}
@@ -93,7 +91,7 @@ func (s *State) Nodes() []*corev1.Node {
 func (s *State) EDSs() []*v1.ExtendedDaemonSet {
 	var out []*v1.ExtendedDaemonSet
 	for _, o := range s.Objs {
-		if p, ok := o.(*v1.ExtendedDaemonSet); ok {
+		if p, ok := o.O.(*v1.ExtendedDaemonSet); ok {
 			out = append(out, p)
 		}
 	}
@@ -103,7 +101,7 @@ func (s *State) EDSs() []*v1.ExtendedDaemonSet {
 func (s *State) ERSs() []*v1.ExtendedDaemonSetReplicaSet {
 	var out []*v1.ExtendedDaemonSetReplicaSet
 	for _, o := range s.Objs {
-		if p, ok := o.(*v1.ExtendedDaemonSetReplicaSet); ok {
+		if p, ok := o.O.(*v1.ExtendedDaemonSetReplicaSet); ok {
 			out = append(out, p)
 		}
 	}
@@ -113,7 +111,7 @@ func (s *State) ERSs() []*v1.ExtendedDaemonSetReplicaSet {
 func (s *State) Settings() []*v1.ExtendedDaemonsetSetting {
 	var out []*v1.ExtendedDaemonsetSetting
 	for _, o := range s.Objs {
-		if p, ok := o.(*v1.ExtendedDaemonsetSetting); ok {
+		if p, ok := o.O.(*v1.ExtendedDaemonsetSetting); ok {
 			out = append(out, p)
 		}
 	}
@@ -158,51 +156,19 @@ func (s *State) Node(name string) *corev1.Node {
 
 // ---- canonical key ---------------------------------------------------------------------------
 
-// normalise turns an object into a canonical JSON value: resourceVersion / managedFields dropped,
-// every RFC3339 timestamp replaced by its age relative to now (whole seconds).
-func normalise(v interface{}, now time.Time) interface{} {
-	switch x := v.(type) {
-	case map[string]interface{}:
-		delete(x, "resourceVersion")
-		delete(x, "managedFields")
-		for k, e := range x {
-			x[k] = normalise(e, now)
-		}
-		return x
-	case []interface{}:
-		for i := range x {
-			x[i] = normalise(x[i], now)
-		}
-		return x
-	case string:
-		if len(x) == 20 && x[4] == '-' && x[10] == 'T' && x[19] == 'Z' {
-			if t, err := time.Parse(time.RFC3339, x); err == nil {
-				return fmt.Sprintf("@%d", int64(now.Sub(t)/time.Second))
-			}
-		}
-		return x
-	}
-	return v
-}
-
-// Key is the canonical key of the state (hex SHA-256).
+// Key is the canonical key of the state (hex SHA-256 prefix): per-object digests (JSON without
+// resourceVersion; cached on the immutable object), the instant, the back-off table, monitor memory, budget.
+// Timestamps are absolute: two states are merged only if they agree on every timestamp and on the clock.
 func (s *State) Key() string {
 	if s.key != "" {
 		return s.key
 	}
-	now := Epoch.Add(s.Now)
 	h := sha256.New()
 	for _, o := range s.Objs {
-		b, err := json.Marshal(o)
-		must(err)
-		var v interface{}
-		must(json.Unmarshal(b, &v))
-		nb, err := json.Marshal(normalise(v, now))
-		must(err)
-		h.Write([]byte(kindOf(o)))
-		h.Write(nb)
-		h.Write([]byte{0})
+		d := o.Digest()
+		h.Write(d[:])
 	}
+	fmt.Fprintf(h, "now %d|", s.Now/time.Second)
 	if len(s.Backoff) > 0 {
 		ks := make([]string, 0, len(s.Backoff))
 		for k := range s.Backoff {
@@ -232,7 +198,8 @@ func (s *State) Key() string {
 // Describe gives a short human-readable rendering of a state (for replays and samples).
 func (s *State) Describe() []string {
 	var out []string
-	for _, o := range s.Objs {
+	for _, w := range s.Objs {
+		o := w.O
 		switch x := o.(type) {
 		case *corev1.Node:
 			t := ""
@@ -310,6 +277,8 @@ func TemplateTag(t *corev1.PodTemplateSpec) string {
 type Config struct {
 	AffinityMode          bool // IsNodeAffinitySupported: pods pinned by affinity and bound by the scheduler model
 	DefaultValidationMode v1.ExtendedDaemonSetSpecStrategyCanaryValidationMode
+	// UseFake: back the API layer by controller-runtime's fake client instead of the in-memory store (conformance runs).
+	UseFake bool
 }
 
 // Live is a restored state: a store and fresh reconciler instances. Only valid inside the bubble that built it.
@@ -335,6 +304,9 @@ var _ record.EventRecorder = nopRecorder{}
 // clock already shows s.Now.
 func NewLive(s *State, cfg Config) *Live {
 	api := NewAPI(s.Objs)
+	if cfg.UseFake {
+		api = NewAPIFake(s.Objs)
+	}
 	l := &Live{API: api, Cfg: cfg}
 	log := logr.Discard()
 	vm := cfg.DefaultValidationMode
